@@ -561,6 +561,22 @@ def oracle(c, ctx):
         ctx.counter[0] += 2
         t = dict(t, name="c16 oracle %d" % ctx.counter[0])
         t_cur = dict(t_cur, name="c16 oracle %d" % (ctx.counter[0] + 1))
+    if op in ("convert", "convertl") and t_cur["from"] == t_cur["to"]:
+        # between the two spellings of one unit: the current spelling takes the same-unit shortcut, which does
+        # not even look at the category; the property speaks only when the category/type has the unit
+        try:
+            db = ctx.dbs[t["db"]]
+            base = db.GetBaseUnit(db.unit_to_unit_info[cur].quantity_type)
+            others = [i.unit for i in db.quantity_types[db.unit_to_unit_info[cur].quantity_type] if i.unit != cur]
+            db.Convert(t["cq"], cur, base if base != cur else (others[0] if others else cur), 1.0)
+            db.GetInfo(db.unit_to_unit_info[cur].quantity_type, cur)
+            if t["cq"] not in db.categories_to_quantity_types and t["cq"] != db.unit_to_unit_info[cur].quantity_type:
+                return None
+            if t["cq"] in db.categories_to_quantity_types and \
+                    db.categories_to_quantity_types[t["cq"]].quantity_type != db.unit_to_unit_info[cur].quantity_type:
+                return None
+        except Exception:
+            return None
     try:
         rc = _run(op, t_cur, ctx)
     except Exception:
